@@ -15,7 +15,9 @@ static CACHED: [CachedInternedStringId; 6] = [CachedInternedStringId::new("foo")
 /// Every thread's log buffer (base, capacity): a copy is only performed into a known buffer.
 static LOG_BUFS: Mutex<Vec<(usize, usize)>> = Mutex::new(Vec::new());
 
-struct Worker { reads: Vec<c01::Obs>, str_dest: Option<(usize, usize)>, intern_dest: Option<(usize, usize)>, log_area: usize }
+struct Worker { reads: Vec<c01::Obs>, str_dest: Option<(usize, usize)>, intern_dest: Option<(usize, usize)>, log_area: usize,
+    /// a NON-static cached-id handle whose storage is reused for different strings (every other LOAD goes through it)
+    slot: Box<CachedInternedStringId>, loads: usize }
 
 fn exec(w: &mut Worker, step: &str) -> String {
     let t: Vec<&str> = step.split_whitespace().collect();
@@ -49,7 +51,9 @@ fn exec(w: &mut Worker, step: &str) -> String {
                     std::ptr::copy(m.as_ptr().add(a[0].min(m.len())), a[1] as *mut u8, l1);
                     if a[4] > 0 { std::ptr::copy(m.as_ptr().add(a[0].saturating_add(a[2]).min(m.len())), a[3] as *mut u8, l2); } } } }
             "UNIT".into() }
-        ["LOAD", k] => { let id = CACHED[k.parse::<usize>().unwrap()].load(); let n: usize = unsafe { std::mem::transmute_copy(&id) }; format!("ID {}", n) }
+        ["LOAD", k] => { let k = k.parse::<usize>().unwrap(); w.loads += 1;
+            let id = if w.loads % 2 == 0 { *w.slot = CachedInternedStringId::new(KEYS[k]); w.slot.load() } else { CACHED[k].load() };
+            let n: usize = unsafe { std::mem::transmute_copy(&id) }; format!("ID {}", n) }
         ["FIN"] => { let (r, b) = provider::write::shopify_function_output_finalize_and_return_msgpack_bytes(); format!("FIN {} {}", r as usize, c03::digest(&b)) }
         ["VIEW"] => { let (buf, base, cap, wd) = provider::log::verif_log_view();
             let seg = |p: usize, l: usize| -> Option<Vec<u8>> { if l == 0 { Some(vec![]) } else if p < base || p - base + l > cap { None } else { Some(buf[p - base..p - base + l].to_vec()) } };
@@ -62,7 +66,7 @@ fn exec(w: &mut Worker, step: &str) -> String {
 fn spawn_worker() -> (Sender<String>, Receiver<String>) {
     let (tx, rx) = channel::<String>(); let (otx, orx) = channel::<String>();
     std::thread::Builder::new().stack_size(16 << 20).spawn(move || {
-        let mut w = Worker { reads: vec![], str_dest: None, intern_dest: None, log_area: 0 };
+        let mut w = Worker { reads: vec![], str_dest: None, intern_dest: None, log_area: 0, slot: Box::new(CachedInternedStringId::new(KEYS[0])), loads: 0 };
         for step in rx { let o = std::panic::catch_unwind(std::panic::AssertUnwindSafe(|| exec(&mut w, &step))).unwrap_or_else(|_| "PANIC".into()); if otx.send(o).is_err() { break; } }
     }).unwrap();
     (tx, orx)
@@ -122,11 +126,11 @@ pub fn script(r: &mut Rng, n: usize, interned: &mut usize, cap: usize, own_ids_o
             1 => if reads > 0 { s.push(format!("R PROP 0 {}", hex(r.pick(&["foo", "k0", "bar", "zz"]).as_bytes()))); reads += 1; },
             2 => if reads > 0 { s.push(format!("R IDX {} {}", r.below(reads as u64), r.below(3))); reads += 1; },
             3 => { let l = *r.pick(&[0usize, 1, 3, 40, cap - 1, cap, cap + 7, 2 * cap + 3]); let l2 = if r.chance(85) { l } else { l / 2 }; s.push(format!("LOGPLAN {}", l)); s.push(format!("LOGCOPY {}", bytes(r, l2.max(l)))); }
-            4 => { let l = r.below(8) as usize; s.push(format!("INTERNDEST {}", l)); s.push(format!("INTERNCOPY {}", bytes(r, l))); *interned += 1; }
+            4 => { let l = if r.chance(15) { *r.pick(&[31usize, 300, 5000, 70000]) } else { r.below(8) as usize }; s.push(format!("INTERNDEST {}", l)); s.push(format!("INTERNCOPY {}", bytes(r, l))); *interned += 1; }
             5 => if *interned > base { s.push(format!("ISTR {}", base as u64 + r.below((*interned - base) as u64))); },
             6 => if *interned > base && reads > 0 { s.push(format!("RIPROP 0 {}", base as u64 + r.below((*interned - base) as u64))); reads += 1; },
             7 => { let l = *r.pick(&[0usize, 1, 2, 5, 31, 32, 300]); s.push(format!("STRDEST {}", l)); s.push(format!("STRCOPY {}", bytes(r, l))); }
-            8 => if !own_ids_only { let k = r.below(KEYS.len() as u64); s.push(format!("LOAD {}", k)); *interned += 0; },
+            8 => if !own_ids_only { for _ in 0..(1 + r.below(3)) { let k = r.below(KEYS.len() as u64); s.push(format!("LOAD {}", k)); } },
             9 => { let l = *r.pick(&[0usize, 1, 2, 2]); if r.chance(50) { s.push(format!("W SOBJ {}", l)); depth.push((true, l, 0)); } else { s.push(format!("W SARR {}", l)); depth.push((false, l, 0)); } }
             10 => { s.push(match depth.pop() { Some((true, ..)) => "W FOBJ".to_string(), Some((false, ..)) => "W FARR".to_string(), None => if r.chance(50) { "W FOBJ".into() } else { "W FARR".into() } }); }
             11 => s.push(format!("W {}", r.pick(&["NULL", "BOOL 1", "I32 -7", "I32 70000", "F64 3ff8000000000000", "STR 6b30"]))),
@@ -223,6 +227,13 @@ pub fn run(a: &Args, out: &mut Out, kind: &str) {
             for i in 0..n {
                 let mut r = rng.fork(i as u64); let mut interned = 0usize; let mut sched = vec![];
                 let ninv = r.range(if kind == "c13" { 2 } else { 1 }, if kind == "c13" { 5 } else { 3 }) as usize;
+                if kind == "c12" && i % 10 == 3 { // ids must survive storage growth AND new invocations (fresh thread: ids 0, 1, then 2)
+                    let big = *r.pick(&[66000usize, 70000, 140000]);
+                    for st in [format!("INIT {}", hex(&doc(&mut r))), "INTERNDEST 3".to_string(), format!("INTERNCOPY {}", hex(b"foo")), format!("INTERNDEST {}", big), format!("INTERNCOPY {}", bytes(&mut r, big)),
+                               format!("INIT {}", hex(&doc(&mut r))), "R ROOT".to_string(), "RIPROP 0 0".to_string(), "W SARR 2".to_string(), "ISTR 0".to_string(), "ISTR 1".to_string(),
+                               "INTERNDEST 2".to_string(), format!("INTERNCOPY {}", hex(b"k0")), "RIPROP 0 2".to_string(), "OUT".to_string()] { sched.push((1usize, st)); }
+                    interned = 3;
+                }
                 for _ in 0..ninv { let k = r.range(3, 14) as usize; for s in script(&mut r, k, &mut interned, cap, kind == "c13") { sched.push((1usize, s)); } }
                 if kind == "c12" && r.chance(30) { // a second thread loading the same cached keys
                     for s in ["INIT c0", "LOAD 0", "LOAD 1", "ISTR 0", "LOAD 0", "OUT"] { sched.push((2, s.to_string())); } }
